@@ -210,6 +210,8 @@ def run_tables(chk, prop, n_scenes, families=FAMILIES):
             chk.mismatch('wrapper targets missing', str(res['missing']), replay)
         if res['exc']:
             chk.count('scene_raised_' + res['exc'])
+            chk.mismatch('metarize/metar_msg model = implementation (the implementation raised on an accepted scene)',
+                         f"{res['exc']}: {res.get('exc_msg')}", replay)
             continue
         for w, a in per_scene.get(task, []):
             rp = dict(replay, which=w)
